@@ -5,9 +5,19 @@ COMMON_ASSUME = [
     "dev profile (debug assertions, overflow checks) as used by the pinned test suite",
 ]
 
+NOT_CLAIMED = {}
+
+LEVEL_NOTE = ("Trusted: Lean 4.33 kernel (axioms ⊆ propext, Classical.choice, Quot.sound; no native_decide, no sorry), "
+              "tools/extract_tables.py, harness/vh and Driver/*.lean line protocol; IEEE binary32 round-to-nearest-even as "
+              "modelled by F32.rnd / executed by Lean's Float32; code outside the model is listed in the evidence trusted_base.")
+TECHNIQUE = ("Lean 4 machine-checked proof over an executable model + translator-regenerated tables + "
+             "model/implementation correspondence check; implementation-side search supplies failing inputs")
+
 SPECS = {
     "C16": {
         "level": "proof",
+        "claim": "Lean 4 theorems over a bit-exact model of the per-pixel filter arithmetic: multiply_alpha never exceeds alpha and demultiply∘multiply is the identity (whole 8-bit domain, kernel-decided), validity of arithmetic composite / colour matrix / component transfer / morphology / convolve for all parameters (parametric in a monotone rounding operator), exact identity rows; model tied to the code by an exhaustive 8-bit correspondence and generated parameters; LUTs regenerated from the source by the translator. Region containment and tiny-skia-based primitives are covered by the implementation-side search only.",
+        "design_ref": "§6 C16",
         "corr": True,
         "search": True,
         "translator_anchors": ["filter/mod.rs: SRGB_TO_LINEAR_RGB_TABLE", "filter/mod.rs: LINEAR_RGB_TO_SRGB_TABLE",
@@ -15,6 +25,18 @@ SPECS = {
         "rule": "correspondence: exhaustive 8-bit rows (mul/demul/into_srgb/into_linear: 256 alphas x 256 channels each) plus PRNG-generated parameters for arithmetic, transfer and matrix; a case is distinct by (request, answer) hash. search: PRNG images through the real per-pixel kernels, oracle = statement (channel<=alpha, region, identity).",
         "trusted_base": ["modelled: filter/mod.rs multiply_alpha, demultiply_alpha, into_srgb, into_linear_rgb, composite::arithmetic, component_transfer::transfer, color_matrix::apply(Matrix), morphology min/max fold, convolve_matrix final clamp",
                          "not modelled (searched only): tiny-skia draw_pixmap/fill_rect used by blend, merge, composite operators, offset, tile, flood; box/IIR blur numerics; turbulence; lighting"],
+        "assumptions": COMMON_ASSUME,
+    },
+    "C17": {
+        "level": "proof",
+        "corr": True,
+        "search": True,
+        "translator_anchors": [],
+        "claim": "Lean 4 theorems over Rat about ViewBox::to_transform / aligned_pos (uniform scale, meet inside, slice covers, tightness, alignment for all 10 aligns by a factor argument, none exact, commutation with viewport scaling) and about resolve_svg_size (units at DPI, percent of viewBox / default size, missing = 100%, error iff non-positive). The same definitions are executed on Float32 (viewBox, transform concat) or with explicit binary32/64 rounding (size) and compared bit-for-bit with the real code for root, nested svg and symbol viewports; marker, pattern and image viewports and rendering-level scale commutation are covered by the implementation-side oracle.",
+        "design_ref": "§6 C17",
+        "rule": "correspondence: all 10 aligns x {meet,slice} x PRNG rectangles (aspect 1:50..50:1, negative origins) for root / nested svg / symbol, root size with every unit, %, missing attrs, DPI and default_size varied; distinct by (request, answer). search: marker rectangle filling the viewBox measured in the rendering for 6 viewport kinds vs an independent f64 implementation of the SVG rules; scale-vs-size rendering; Tree::size vs the rules; non-trivial = something expected to be painted / a size expected.",
+        "trusted_base": ["modelled: tree/geom.rs ViewBox::to_transform, aligned_pos; tiny-skia-path Transform::concat/pre_translate, NonZeroRect::from_xywh/width; converter.rs resolve_svg_size; units.rs convert_length (user space)",
+                         "not modelled (searched only): marker/pattern/image call sites of to_transform, clip rectangles of nested viewports, calculate_svg_bbox fallback, svgtypes number/length/viewBox parsers"],
         "assumptions": COMMON_ASSUME,
     },
 }
